@@ -11,7 +11,7 @@ from .smt import Val, Seq, Len, At
 from .types import Ty, parse as T
 from .symexec import Executor, SV, Exc, State, Unsupported, fresh, cls_of, I, B, _uid
 
-Z3_TIMEOUT_MS = int(os.environ.get("PYVC_Z3_TIMEOUT_MS", "30000"))
+Z3_TIMEOUT_MS = int(os.environ.get("PYVC_Z3_TIMEOUT_MS", "10000"))
 CVC5_TIMEOUT_S = int(os.environ.get("PYVC_CVC5_TIMEOUT_S", "30"))
 
 
@@ -41,7 +41,8 @@ def make_executor(program, spec, qualname, recv_cls):
     ex.loop_index = {}
     ex.comp_info = {}
     ex.call_method = lambda st, o, name, pos, kw, node: calls.call_method(ex, st, o, name, pos, kw, node)
-    ex.on_event = lambda st, ev, lst, x, node: None
+    oe = getattr(spec, "on_event", None)
+    ex.on_event = (lambda st, ev, lst, x, node: oe(ex, st, ev, lst, x, node)) if oe else (lambda *a: None)
     return ex, fi
 
 
@@ -52,12 +53,17 @@ def contract_for(spec, fi, recv_cls):
     return spec.contracts.get(key)
 
 
-def generate(program, spec, qualname, recv_cls=None):
-    """symbolically execute the unit; returns (executor, obligations)"""
+def generate(program, spec, qualname, recv_cls=None, case=None):
+    """symbolically execute the unit; returns (executor, contract)"""
     ex, fi = make_executor(program, spec, qualname, recv_cls)
     c = contract_for(spec, fi, recv_cls)
     if c is None:
         raise Unsupported("no contract for " + qualname)
+    if c.cases:
+        if case is None:
+            raise Unsupported("contract has cases; generate per case")
+        c = [cs for cs in c.cases if cs.case_name == case][0]
+        ex.unit_name += f"[{case}]"
     st = State()
     st.epoch = 0
     env = {}
@@ -84,6 +90,8 @@ def generate(program, spec, qualname, recv_cls=None):
     for lab, text in c.requires:
         g = calls.spec_eval(ex, st, env, text)
         st.assume(g)
+    if c.when is not None:
+        st.assume(calls.spec_eval(ex, st, env, c.when))
     entry_heap = dict(st.heap)
     ex.entry_old = (entry_heap, dict(env), 0)
     ex.entry_env = dict(env)
@@ -182,9 +190,76 @@ def axioms():
     return _AXIOMS
 
 
+_SEQ_SYMS = {"Len", "At", "Append1", "RemoveAt", "IndexOf", "Contains", "Take", "Drop", "Concat", "Update",
+             "SumI", "SumR", "Range", "PSum", "PSumI", "Empty"}
+
+
+def _symbols(t, acc, seen):
+    stack = [t]
+    while stack:
+        x = stack.pop()
+        i = x.get_id()
+        if i in seen:
+            continue
+        seen.add(i)
+        if z3.is_quantifier(x):
+            stack.append(x.body())
+            for k in range(x.num_patterns()):
+                stack.append(x.pattern(k))
+            continue
+        if z3.is_app(x):
+            n = x.decl().name()
+            if n in _SEQ_SYMS:
+                acc.add(n)
+            stack.extend(x.children())
+    return acc
+
+
+_AX_INFO = None
+
+
+def relevant_axioms(assumptions, goal):
+    """prelude axioms that can possibly be instantiated for this obligation: an axiom is enabled when
+    all sequence-theory symbols of one of its patterns occur in the obligation or in the body of an
+    enabled axiom (fixpoint).  Dropping the others is sound and removes useless instantiation work."""
+    global _AX_INFO
+    axs = axioms()
+    if _AX_INFO is None:
+        _AX_INFO = []
+        for a in axs:
+            if z3.is_quantifier(a):
+                pats = []
+                for k in range(a.num_patterns()):
+                    pats.append(_symbols(a.pattern(k), set(), set()))
+                _AX_INFO.append((pats, _symbols(a.body(), set(), set())))
+            else:
+                _AX_INFO.append((None, _symbols(a, set(), set())))
+    avail = set()
+    seen = set()
+    for f in list(assumptions) + [goal]:
+        _symbols(f, avail, seen)
+    enabled = [False] * len(axs)
+    changed = True
+    while changed:
+        changed = False
+        for k, (pats, body) in enumerate(_AX_INFO):
+            if enabled[k]:
+                continue
+            if pats is None:
+                ok = (body - {"Empty"}) <= avail
+            else:
+                ok = any(p <= avail for p in pats) if pats else True
+            if ok:
+                enabled[k] = True
+                if not body <= avail:
+                    avail |= body
+                    changed = True
+    return [a for a, e in zip(axs, enabled) if e]
+
+
 def to_smt2(assumptions, goal):
     s = z3.Solver()
-    for a in axioms():
+    for a in relevant_axioms(assumptions, goal):
         s.add(a)
     for a in assumptions:
         s.add(a)
@@ -212,7 +287,7 @@ def discharge(ob, use_cvc5=True, timeout_ms=None, seed=0):
     """-> dict(verdict, backend, time, detail)"""
     t0 = time.time()
     s = smt.new_solver(timeout_ms or Z3_TIMEOUT_MS, seed)
-    for a in axioms():
+    for a in relevant_axioms(ob.assumptions, ob.goal):
         s.add(a)
     for a in ob.assumptions:
         s.add(a)
@@ -259,12 +334,29 @@ def model_summary(m, limit=60):
     return "\n".join(lines)
 
 
-def verify_unit(program, spec, qualname, recv_cls=None, use_cvc5=True, keep=False):
+def verify_unit(program, spec, qualname, recv_cls=None, use_cvc5=True, keep=False, case=None):
     unit = (recv_cls + "::" if recv_cls else "") + qualname
+    if case is None:
+        fi0 = program.get(qualname) if recv_cls is None else program.lookup(recv_cls, qualname.split(".", 1)[1])
+        c0 = contract_for(spec, fi0, recv_cls) if fi0 is not None else None
+        if c0 is not None and c0.cases:
+            total = UnitResult(unit)
+            for cs in c0.cases:
+                r = verify_unit(program, spec, qualname, recv_cls, use_cvc5, keep, case=cs.case_name)
+                if r.status != "ok" and total.status == "ok":
+                    total.status, total.message = r.status, r.message
+                total.obligations.extend(r.obligations)
+                total.warnings = sorted(set(total.warnings) | set(r.warnings))
+                total.assumed_used = sorted(set(total.assumed_used) | set(r.assumed_used))
+                total.inlined = sorted(set(total.inlined) | set(r.inlined))
+                total.src_hash = r.src_hash
+                total.gen_time += r.gen_time
+                total.vacuous = getattr(total, "vacuous", False) or getattr(r, "vacuous", False)
+            return total
     res = UnitResult(unit)
     t0 = time.time()
     try:
-        ex, c = generate(program, spec, qualname, recv_cls)
+        ex, c = generate(program, spec, qualname, recv_cls, case)
     except Unsupported as u:
         res.status = "unsupported"
         res.message = str(u)
@@ -279,7 +371,7 @@ def verify_unit(program, spec, qualname, recv_cls=None, use_cvc5=True, keep=Fals
     res.inlined = sorted(ex.inlined)
     res.src_hash = ex.fi.src_hash
     # vacuity probe: requires must not be contradictory
-    probe = smt.new_solver(5000)
+    probe = smt.new_solver(1500)
     for a in axioms():
         probe.add(a)
     for a in ex.obligations_pre:
